@@ -22,8 +22,11 @@ from sa.flow import Alias
 GEO = "ahrs/utils/geodesy.py"
 
 
-def ellipsoid(it, f=None):
-    a, GM, w = P.sym("a"), P.sym("GM"), P.sym("w")
+def ellipsoid(it, f=None, sub=None):
+    sub = sub or {}
+    a, GM, w = (P.const(sub[n_]) if n_ in sub else P.sym(n_) for n_ in ("a", "GM", "w"))
+    if f is None and "f" in sub:
+        f = sub["f"]
     fv = P.sym("f") if f is None else P.const(f)
     cls = it.program.cls(GEO + "::ReferenceEllipsoid")
     obj = it.instantiate(cls, [a, fv, GM, w], {})
@@ -123,6 +126,27 @@ def limit_arm(chk, prog):
             return True
         chk.ob("LIMIT", fn.ref, "the f == 0 arm of %s is the f -> 0 limit of the general arm" % attr, law, module=GEO, function="ReferenceEllipsoid." + attr,
                construct="sphere arm is the limit of the general arm", line=fn.node.lineno)
+
+
+def pizzetti_arms(chk, prog):
+    """PIZZETTI on every equality-guarded arm the two gravity properties have: each `x == 0` test on a quantity of the ellipsoid (es == 0, m == 0 ...) is
+    revisited with the parameter that makes it true set to zero (f = 0, w = 0); the theorem must hold there too, and arms that only raise are exempt"""
+    from sa.lib import ob_arms
+    cls = prog.cls(GEO + "::ReferenceEllipsoid")
+    fe = cls.lookup("equatorial_normal_gravity")
+
+    def body(sub, mk):
+        if sub.get("a") == 0 or sub.get("GM") == 0:
+            from sa.symeval import Raised
+            raise Raised("ValueError", None, None)          # not an ellipsoid: outside the property
+        it = mk(prog, oracle=lambda c, i: False if c.op in ("<", ">", "<=", ">=") else None)
+        obj, a, f, GM, w = ellipsoid(it, sub=sub)
+        b = a * (1 - f)
+        ge = it.getattr(obj, "equatorial_normal_gravity", None)
+        gp = it.getattr(obj, "polar_normal_gravity", None)
+        return eq(2 * ge / a + gp / b, 3 * GM / (a * a * b) - 2 * w * w, "2ge/a + gp/b")
+    ob_arms(chk, "PIZZETTI.arms", GEO + "::ReferenceEllipsoid::equality arms", "2 ge/a + gp/b == 3 GM/(a^2 b) - 2 w^2", body, max_arms=8,
+            module=GEO, function="ReferenceEllipsoid.equatorial_normal_gravity/polar_normal_gravity", construct="Pizzetti on degenerate arms", line=fe.node.lineno)
 
 
 def somigliana(chk, prog):
@@ -234,6 +258,7 @@ def canaries(chk, prog):
 def run(chk, prog, tier):
     derived(chk, prog)
     pizzetti(chk, prog)
+    pizzetti_arms(chk, prog)
     somigliana(chk, prog)
     limit_arm(chk, prog)
     shared(chk, prog)
